@@ -6,8 +6,8 @@ W=/tmp/mut/verify
 git -C /repo worktree remove --force $W 2>/dev/null
 git -C /repo worktree add -q --detach $W HEAD || exit 1
 cd $W
-for d in /tmp/mut/out/C*/[0-9]*; do
-  id=$(basename $(dirname $d)); n=$(basename $d); name=$id-$n
+for d in ${MUTDIR:-/tmp/mut/out}/C*/[0-9]*; do
+  id=$(basename $(dirname $d)); n=$(basename $d); name=$id-${ROUND:-}$n
   [ -f $d/patch.diff ] || continue
   git checkout -q -- . ; git clean -fdq
   res="applies=no"
